@@ -17,6 +17,8 @@ mod optimization_common;
 mod scalar_replacement;
 mod scalar_replacement_tests;
 mod unused_name_elimination;
+#[cfg(samlang_verif)]
+pub mod verif_hooks;
 
 pub struct OptimizationConfiguration {
   pub does_perform_local_value_numbering: bool,
